@@ -15,6 +15,7 @@ double __undef_f64(void) { return 12345.5; }
 void cprover_assume(int c) { if (!c) { printf(exhausted ? "NOTE: stopped at an assumption after the vector was exhausted\n" : "REPLAY: assumption violated\n"); fflush(stdout); exit(exhausted ? (failures ? 1 : 0) : 3); } }
 void cprover_assert(int c, const char *m) {
     if (strncmp(m, "REACH: ", 7) == 0) { printf("%s\n", m); return; }
+    if (strncmp(m, "CUT: ", 5) == 0) return;   /* capacity cut of the model: the following assumption stops the run */
     if (strncmp(m, "unwinding", 9) == 0 || strncmp(m, "UB: ", 4) == 0 || strncmp(m, "MON: ", 5) == 0) { if (!c) { printf("ASSERT FAIL: %s\n", m); ++failures; } return; }
     printf("ASSERT %s: %s\n", c ? "ok" : "FAIL", m); if (!c) ++failures;
 }
